@@ -113,9 +113,9 @@ n_bin = len(arms)
 
 # closures with a single ctor application in op_out_only callers
 body = body.replace('self.op_out_only(out, |out| RegOp::CopyImm(out, imm));',
-    'self.op_out_only(out, |o: u8| -> (r: RegOp) ensures r == RegOp::CopyImm(o, imm) { RegOp::CopyImm(o, imm) });')
+    'let f = |o: u8| -> (r: RegOp) ensures r == RegOp::CopyImm(o, imm) { RegOp::CopyImm(o, imm) };\n        self.op_out_only(out, f);')
 body = body.replace('self.op_out_only(out, |out| RegOp::Input(out, i));',
-    'self.op_out_only(out, |o: u8| -> (r: RegOp) ensures r == RegOp::Input(o, i) { RegOp::Input(o, i) });')
+    'let f = |o: u8| -> (r: RegOp) ensures r == RegOp::Input(o, i) { RegOp::Input(o, i) };\n        self.op_out_only(out, f);')
 
 # constructors with iterator adapters: external_body (assumed contract injected later)
 for nm in ('new', 'empty', 'reset', 'finalize'):
